@@ -95,6 +95,16 @@ pub fn build_mode(draws: &[u16], tier: Tier, force: Option<usize>) -> Case {
             c = Case::new("C19", "region", prog);
             c.cfg.expect_explicit_explore = explicit;
             c.x.mode = Some("region".into());
+            match s.pick(6) {
+                // the controls together with a preemption bound (completeness is then not demanded)
+                0 => c.cfg.preemption_bound = Some(s.range(0, 3)),
+                // ... and with a run that is stopped after k iterations and resumed from its checkpoint
+                1 => {
+                    c.x.k = Some(1 + s.pick(10) as i64);
+                    c.x.c = Some([1, 1, 2, 3][s.pick(4)] as i64);
+                }
+                _ => {}
+            }
         }
         // phase programs A ; R ; C
         0 | 1 | 2 => {
@@ -278,10 +288,36 @@ pub fn eval(case: &Case) -> Verdict {
             // reference: every interleaving in which main, once inside the region, keeps running
             // until `explore()` (decisions inside the region are not explored), all decisions
             // outside fully explored:  Rfrozen ⊆ L ⊆ R
-            let run = interp::collect(p, &case.cfg, false);
+            let run = if let Some(k) = case.x.k.filter(|k| *k > 0) {
+                let file = crate::script::scratch_file("c19ckpt");
+                let _ = std::fs::remove_file(&file);
+                let mut cfg = case.cfg.clone();
+                cfg.checkpoint_interval = case.x.c.unwrap_or(1).max(1) as usize;
+                let mut c1 = cfg.clone();
+                c1.max_permutations = Some(k as usize);
+                let mut r1 = interp::collect_with(p, &c1, interp::RunOpts { checkpoint_file: Some(file.clone()), ..Default::default() }, false);
+                let r2 = interp::collect_with(p, &cfg, interp::RunOpts { checkpoint_file: Some(file.clone()), ..Default::default() }, false);
+                let _ = std::fs::remove_file(&file);
+                v.label("stopped_and_resumed");
+                for (o, n) in r2.outcomes {
+                    *r1.outcomes.entry(o).or_insert(0) += n;
+                }
+                r1.report.iters += r2.report.iters;
+                r1.report.capped = r2.report.capped;
+                if r1.report.panic.is_none() {
+                    r1.report.panic = r2.report.panic;
+                }
+                r1
+            } else {
+                interp::collect(p, &case.cfg, false)
+            };
             v.loom_iters = run.report.iters as u64;
             if run.report.capped {
                 return Verdict::skip("capped");
+            }
+            let bounded = case.cfg.preemption_bound.is_some();
+            if bounded {
+                v.label("preemption_bound");
             }
             let mut o = refsc::Opts::new();
             o.max_states = 400_000;
@@ -306,6 +342,9 @@ pub fn eval(case: &Case) -> Verdict {
             }
             if let Some(x) = l.iter().find(|x| !fr.outcomes.contains(*x)) {
                 return v.fail("region_explored", format!("result {} needs a scheduling decision inside the stop_exploring()/explore() region to go against the default", fmt_outcome(x)));
+            }
+            if bounded {
+                return v;
             }
             if let Some(x) = fr.outcomes.iter().find(|x| !l.contains(*x)) {
                 return v.fail("outside_not_fully_explored", format!("result {} only needs decisions outside the region, but is never explored ({} of {} missing)", fmt_outcome(x), fr.outcomes.iter().filter(|x| !l.contains(*x)).count(), fr.outcomes.len()));
